@@ -3,6 +3,7 @@
 (* Header {"ev": "Init", "tset": setting, "rset": setting, "timeout": q, "redo": q} (the last two  *)
 (* are the attributes the constructed exchange shows); then                                      *)
 (*   {"ev": "Advance", "dt": q} | {"ev": "Start", "m": message, obs} | {"ev": "Process", obs} |    *)
+(*   {"ev": "Send", "m": message, obs} | {"ev": "Transmit", "m": message, obs} |                   *)
 (*   {"ev": "Finish", obs}   with obs = "done", "failed", "sent", "last", "res" as observed.       *)
 EXTENDS Exchange, TraceBatch
 
@@ -21,13 +22,15 @@ TraceInit == /\ tid \in 1..NTraces
              /\ started = FALSE /\ done = FALSE /\ failed = FALSE
              /\ tx = 0 /\ sent = 0 /\ last = 0 /\ starts = 0 /\ res = "new"
 
-Logged == /\ done' = Ev.done /\ failed' = Ev.failed /\ sent' = Ev.sent /\ last' = Ev.last /\ res' = Ev.res
+Logged == /\ tx' = Ev.tx /\ done' = Ev.done /\ failed' = Ev.failed /\ sent' = Ev.sent /\ last' = Ev.last /\ res' = Ev.res
 
 Consume(name) == l <= TraceLen(tid) /\ Ev.ev = name /\ l' = l + 1 /\ UNCHANGED tid
 
 TraceNext ==
     \/ Consume("Advance") /\ Advance(Ev.dt)
     \/ Consume("Start") /\ Start(Ev.m) /\ Logged
+    \/ Consume("Send") /\ Send(Ev.m) /\ Logged
+    \/ Consume("Transmit") /\ Transmit(Ev.m) /\ Logged
     \/ Consume("Process") /\ Process /\ Logged
     \/ Consume("Finish") /\ Finish /\ Logged
 
